@@ -457,7 +457,9 @@ func opCli(fields []string) string {
 
 	// the library on identical copies (only meaningful when the program compiles and files are selected)
 	var lib c18Lib
-	if v["prog"] != "failing" && v["files"] != "absent" && v["files"] != "noneMatching" && v["mode"] != "bogus" {
+	// (needed only for documented invocations: for the others the specification asks that nothing changed)
+	documented := (v["com"] == "1") != (v["src"] == "1") && !(v["json"] == "1" && v["fjson"] == "1")
+	if documented && v["prog"] != "failing" && v["files"] != "absent" && v["files"] != "noneMatching" && v["mode"] != "bogus" {
 		lib = c18RunLib(base, sc, v, prog, dir)
 	}
 
